@@ -46,10 +46,13 @@ type c16Queue struct {
 	writes [][]byte
 	closed bool
 	taken  int
+	// mark >= 0: count the Read calls issued once [mark] bytes have been taken (readsPast)
+	mark      int
+	readsPast int
 }
 
 func newC16Queue() *c16Queue {
-	q := &c16Queue{}
+	q := &c16Queue{mark: -1}
 	q.cond = sync.NewCond(&q.mu)
 	return q
 }
@@ -67,6 +70,9 @@ func (q *c16Queue) Write(p []byte) (int, error) {
 func (q *c16Queue) Read(p []byte) (int, error) {
 	q.mu.Lock()
 	defer q.mu.Unlock()
+	if q.mark >= 0 && q.taken >= q.mark {
+		q.readsPast++
+	}
 	for len(q.buf) == 0 && !q.closed {
 		q.cond.Wait()
 	}
@@ -137,7 +143,8 @@ var c16Caps = []int{0, 1, 2, 7, 100, 1023, 1024, 1025, 2048, 4096}
 func TestVerifC16Stream(t *testing.T) {
 	root := vg.NewRand(vg.Seed() ^ 0xc16)
 	cs := vg.NewCases("C16", "c16_stream", "TM.C16.Exec")
-	n := vg.Scale(150, 8000)
+	cs.Samples = []string{} // never null in the meta file (replay runs may leave a harness without cases)
+	n := vg.Scale(300, 20000)
 	const blk = totalFrameSize + aeadSizeOverhead
 	for k := 0; k < n; k++ {
 		id := cs.NextID()
@@ -231,6 +238,7 @@ func TestVerifC16Stream(t *testing.T) {
 
 		// ---- the adversary
 		blocks := append([][]byte{}, F...)
+		custom := map[string]string{}
 		var edits []string
 		ne := 0
 		switch x := r.Intn(10); {
@@ -245,8 +253,8 @@ func TestVerifC16Stream(t *testing.T) {
 		insBytes := -1
 		for e := 0; e < ne; e++ {
 			m := len(blocks)
-			kind := r.Intn(13)
-			if m == 0 && kind != 6 && kind != 7 && kind != 12 {
+			kind := r.Intn(14)
+			if m == 0 && kind != 6 && kind != 7 && kind != 12 && kind != 13 {
 				kind = 6
 			}
 			switch kind {
@@ -319,6 +327,22 @@ func TestVerifC16Stream(t *testing.T) {
 				j := r.Intn(m)
 				blocks[i] = blocks[j]
 				edits = append(edits, fmt.Sprintf("overwrite block %d with block %d", i, j))
+			case 13:
+				// after the writer's frames: a validly sealed frame (the writer's own AEAD, the
+				// next unused counter) whose length header exceeds dataMaxSize. (Sealing under a
+				// counter Write has used would be the key holder re-using a nonce, which is
+				// outside the property.)
+				i := m
+				hdr := []uint32{dataMaxSize + 1, 2000, 65536, 0xffffffff}[r.Intn(4)]
+				plain := make([]byte, totalFrameSize)
+				binary.LittleEndian.PutUint32(plain, hdr)
+				ctr := c0 + uint64(len(F))
+				f := a.sendAead.Seal(nil, c16Nonce(ctr), plain, nil)
+				custom[string(f)] = vg.App("EF", vg.N(ctr), vg.N(uint64(hdr)))
+				nb := append([][]byte{}, blocks[:i]...)
+				nb = append(nb, f)
+				blocks = append(nb, blocks[i:]...)
+				edits = append(edits, fmt.Sprintf("insert at %d a frame sealed with the writer's key under counter %d with length header %d", i, ctr, hdr))
 			case 12:
 				insBytes = r.Intn(m*blk + 1)
 				edits = append(edits, fmt.Sprintf("insert 3 bytes at byte %d", insBytes))
@@ -343,6 +367,9 @@ func TestVerifC16Stream(t *testing.T) {
 		table := map[string]string{}
 		for i, f := range F {
 			table[string(f)] = vg.App("EG", vg.Nat(i))
+		}
+		for f, s := range custom {
+			table[f] = s
 		}
 		for j, g := range G {
 			if _, ok := table[string(g)]; !ok {
@@ -451,6 +478,7 @@ func TestVerifC16Stream(t *testing.T) {
 func TestVerifC16Nonce(t *testing.T) {
 	root := vg.NewRand(vg.Seed() ^ 0xc16a)
 	cs := vg.NewCases("C16", "c16_nonce", "TM.C16.Exec")
+	cs.Samples = []string{} // never null in the meta file (replay runs may leave a harness without cases)
 	ctrs := []uint64{0, 1, 254, 255, 256, 65535, 65536, 1<<32 - 1, 1 << 32, 1<<56 - 1, 1<<63 - 1, 1 << 63,
 		^uint64(0) - 256, ^uint64(0) - 1, ^uint64(0)}
 	n := len(ctrs) + vg.Scale(15, 500)
@@ -496,7 +524,7 @@ func TestVerifC16Nonce(t *testing.T) {
 		r := root.Fork(uint64(1000 + sz))
 		a, b, qab, _, _ := c16Pair()
 		if a == nil || b == nil {
-			t.Fatal("handshake failed")
+			continue // reported by the stream harness (clause 8)
 		}
 		qab.mu.Lock()
 		qab.writes = nil
@@ -573,6 +601,7 @@ func (s *c16Sink) Close() error { return nil }
 func TestVerifC16Handshake(t *testing.T) {
 	root := vg.NewRand(vg.Seed() ^ 0xc16b)
 	cs := vg.NewCases("C16", "c16_handshake", "TM.C16.Exec")
+	cs.Samples = []string{} // never null in the meta file (replay runs may leave a harness without cases)
 	// directed grid first: every eph kind with a genuine AuthSig, every auth kind with a genuine eph
 	type hk struct {
 		eph, ephlen, auth int
@@ -642,7 +671,11 @@ func TestVerifC16Handshake(t *testing.T) {
 		}
 		what := ""
 		sendEph := func(v []byte) {
-			_, _ = protoio.NewDelimitedWriter(pconn).WriteMsg(&gogotypes.BytesValue{Value: v})
+			bz, _ := protoio.MarshalDelimited(&gogotypes.BytesValue{Value: v})
+			qpv.mu.Lock()
+			qpv.mark = len(bz)
+			qpv.mu.Unlock()
+			_, _ = pconn.Write(bz)
 		}
 		switch h.eph {
 		case 0:
@@ -759,10 +792,14 @@ func TestVerifC16Handshake(t *testing.T) {
 		code := 0
 		remIsClaimed := false
 		if rr.err != nil || rr.sc == nil {
+			// 2: the victim got as far as reading the AuthSig message (it issued a Read after
+			// having consumed a well-formed ephemeral-key message); 1: it failed before
 			code = 1
-			if len(c16Sealed(qvp.writes)) > 0 {
+			qpv.mu.Lock()
+			if qpv.readsPast > 0 {
 				code = 2
 			}
+			qpv.mu.Unlock()
 		} else {
 			remIsClaimed = rr.sc.RemotePubKey() != nil && rr.sc.RemotePubKey().Equals(claimed)
 		}
